@@ -68,6 +68,13 @@ RECURSIVE Zeros(_)
 Zeros(k) == IF k <= 0 THEN "" ELSE "0" \o Zeros(k - 1)
 Hex(n, w) == LET s == HexNat(n) IN Zeros(w - Len(s)) \o s          \* n >= 0
 
+\* tokenize: the values between the non-overlapping occurrences of the separator y (non empty), left to right
+RECURSIVE SplitFrom(_, _, _)
+SplitFrom(x, y, p) == LET e == StrPos(x, y, p) IN
+                      IF e < 0 THEN <<SubSeq(x, p + 1, Len(x))>> ELSE <<SubSeq(x, p + 1, e)>> \o SplitFrom(x, y, e + Len(y))
+Split(x, y) == SplitFrom(x, y, 0)
+NonEmpty(ps) == LET F[i \in 0..Len(ps)] == IF i = 0 THEN <<>> ELSE IF ps[i] = "" THEN F[i - 1] ELSE Append(F[i - 1], ps[i]) IN F[Len(ps)]
+
 \* base64 (RFC 4648 alphabet, padded) of a byte sequence
 B64Alphabet == "ABCDEFGHIJKLMNOPQRSTUVWXYZabcdefghijklmnopqrstuvwxyz0123456789+/"
 B64Ch(n) == SubSeq(B64Alphabet, n + 1, n + 1)
